@@ -11,6 +11,9 @@ First op of a case selects what is driven:
 then
   `pt v t`         raw: `update(Timed(v,t))`; asset: `update_from_balance(total v, time t)`
   `pos d t`        instr: `update_from_position(pnl_realised d, time_exit t)`
+  `asset v t f`, `pt v t f` (asset only), `pos d t te`: optional 4th token = the balance's `free`
+                   amount / the position's `time_enter`; both are irrelevant to the drawdowns (which
+                   follow `total` / `time_exit`), so the drivers only check that the token parses
   `gen`            generate on a clone (the first `generate` after the history so far)
   `gen!`           generate on the generator itself (tear sheets only; mutates mean/max)
 
@@ -65,6 +68,18 @@ def parsePt (v t : String) : Option Pt :=
   | some v, some t => some ⟨t, v⟩
   | _, _ => none
 
+/-- `v t f` with an ignored (but well-formed) free balance `f` -/
+def parsePtFree (v t f : String) : Option Pt :=
+  match parseRat? f with
+  | some _ => parsePt v t
+  | none => none
+
+/-- `d t te` with an ignored (but well-formed) enter time `te` -/
+def parsePtEnter (d t te : String) : Option Pt :=
+  match parseInt? te with
+  | some _ => parsePt d t
+  | none => none
+
 def model : Drv MSt where
   init := ⟨.unset, 0, Sheet.default⟩
   step s toks :=
@@ -78,6 +93,10 @@ def model : Drv MSt where
       | none => (s, ["bad-op"])
     | .unset, ["asset", v, t] =>
       match parsePt v t with
+      | some p => let s' : MSt := ⟨.asset, 0, Sheet.initAsset p⟩; (s', obsSheet s'.sheet)
+      | none => (s, ["bad-op"])
+    | .unset, ["asset", v, t, f] =>
+      match parsePtFree v t f with
       | some p => let s' : MSt := ⟨.asset, 0, Sheet.initAsset p⟩; (s', obsSheet s'.sheet)
       | none => (s, ["bad-op"])
     | .unset, ["instr", t] =>
@@ -96,8 +115,20 @@ def model : Drv MSt where
         let (sh, _) := s.sheet.update p
         ({ s with sheet := sh }, obsSheet sh)
       | none => (s, ["bad-op"])
+    | .asset, ["pt", v, t, f] =>
+      match parsePtFree v t f with
+      | some p =>
+        let (sh, _) := s.sheet.update p
+        ({ s with sheet := sh }, obsSheet sh)
+      | none => (s, ["bad-op"])
     | .instr, ["pos", d, t] =>
       match parsePt d t with
+      | some p =>
+        let (is, _) := (InstrSheet.mk s.pnl s.sheet).update p.t p.v
+        ({ s with pnl := is.pnlRaw, sheet := is.sheet }, obsSheet is.sheet)
+      | none => (s, ["bad-op"])
+    | .instr, ["pos", d, t, te] =>
+      match parsePtEnter d t te with
       | some p =>
         let (is, _) := (InstrSheet.mk s.pnl s.sheet).update p.t p.v
         ({ s with pnl := is.pnlRaw, sheet := is.sheet }, obsSheet is.sheet)
@@ -157,6 +188,10 @@ def spec : Drv SSt where
       match parsePt v t with
       | some p => let s' : SSt := ⟨.asset, 0, [p], false⟩; (s', specObs s' 0 false)
       | none => (s, ["bad-op"])
+    | .unset, ["asset", v, t, f] =>
+      match parsePtFree v t f with
+      | some p => let s' : SSt := ⟨.asset, 0, [p], false⟩; (s', specObs s' 0 false)
+      | none => (s, ["bad-op"])
     | .unset, ["instr", t] =>
       match parseInt? t with
       | some _ => let s' : SSt := ⟨.instr, 0, [], false⟩; (s', specObs s' 0 false)
@@ -169,10 +204,21 @@ def spec : Drv SSt where
       match parsePt v t with
       | some p => push s p false
       | none => (s, ["bad-op"])
+    | .asset, ["pt", v, t, f] =>
+      match parsePtFree v t f with
+      | some p => push s p false
+      | none => (s, ["bad-op"])
     | .instr, ["pos", d, t] =>
       match parsePt d t with
       | some p =>
         -- the PnL curve is the cumulative realised PnL
+        let pnl := s.pnl + p.v
+        push { s with pnl := pnl } ⟨p.t, pnl⟩ false
+      | none => (s, ["bad-op"])
+    | .instr, ["pos", d, t, te] =>
+      match parsePtEnter d t te with
+      | some p =>
+        -- the PnL curve is the cumulative realised PnL, timed by the exit
         let pnl := s.pnl + p.v
         push { s with pnl := pnl } ⟨p.t, pnl⟩ false
       | none => (s, ["bad-op"])
